@@ -52,6 +52,50 @@ def tick(name: str) -> int:
     return _clock[0]
 
 
+# Birth order for the SOLVER (the rewriter uses EVENT syntactically): Birth(r) = event number of the allocation of r;
+# every value held in a heap array constant created at event e (havoc) has Birth < e.  Hence a reference allocated later
+# differs from everything read out of that array.
+Birth = z3.Function("Birth", V, z3.IntSort())
+HAVOC_CONSTS: dict[str, tuple] = {}  # name -> (array constant, component key)
+
+
+def birth_facts_since(clock0: int):
+    """Birth facts for the heap array constants created after event clock0 (stated once, where they are created)."""
+    out = []
+    r, k = z3.Const("bf_r", V), z3.Const("bf_k", V)
+    i = z3.Int("bf_i")
+    for name, (arr, comp) in list(HAVOC_CONSTS.items()):
+        e = EVENT.get(name)
+        if e is None or e <= clock0:
+            continue
+        dom, rng = arr.sort().domain(), arr.sort().range()
+        if comp in ("dv", "sa"):
+            if isinstance(rng, z3.ArraySortRef):   # outer: V -> (index -> V)
+                j = k if rng.domain() == V else i
+                t = arr[r][j]
+                out.append(z3.ForAll([r, j], Birth(t) < e, patterns=[t]))
+            else:                       # inner: index -> V
+                j = k if dom == V else i
+                t = arr[j]
+                out.append(z3.ForAll([j], Birth(t) < e, patterns=[t]))
+        elif comp in ("dh", "sh"):
+            if isinstance(rng, z3.ArraySortRef):
+                t = arr[r][k]
+                out.append(z3.ForAll([r, k], z3.Implies(t, Birth(k) < e), patterns=[t]))
+            else:
+                t = arr[k]
+                out.append(z3.ForAll([k], z3.Implies(t, Birth(k) < e), patterns=[t]))
+        elif comp == "field":
+            t = arr[r]
+            out.append(z3.ForAll([r], Birth(t) < e, patterns=[t]))
+    return out
+
+
+# heap array constant created by a loop cut with frame "non-entry"  ->  the array it replaced (they agree on every
+# entry-allocated reference: asserted as a quantified fact where the constant is created, used syntactically by the rewriter)
+FRAME_OF: dict[str, "z3.ExprRef"] = {}
+
+
 # family id of references created per element of a comprehension (0: an individually allocated reference)
 SkFam = z3.Function("SkFam", V, z3.IntSort())
 _fam_counter = [0]
@@ -223,10 +267,12 @@ class Heap:
         for k in comps if comps is not None else list(c):
             c[k] = z3.Const(fresh_name(f"H_{k}"), self.COMPONENTS[k])
             tick(c[k].decl().name())
+            HAVOC_CONSTS[c[k].decl().name()] = (c[k], k)
         f = dict(self.f)
         for n in fields if fields is not None else list(f):
             f[n] = z3.Const(fresh_name(f"H_f_{n}"), VV)
             tick(f[n].decl().name())
+            HAVOC_CONSTS[f[n].decl().name()] = (f[n], "field")
         return Heap(c, f)
 
     def havoc_ref(self, k, ref):
@@ -234,6 +280,7 @@ class Heap:
         rng = self.COMPONENTS[k].range()
         hv = z3.Const(fresh_name(f"hv_{k}"), rng)
         tick(hv.decl().name())
+        HAVOC_CONSTS[hv.decl().name()] = (hv, k)
         return self.with_comp(k, z3.Store(self.c[k], ref, hv))
 
 
